@@ -98,6 +98,12 @@ def build_ds(c):
                 "contours": [[(p[0] + 3, p[1], p[2]) for p in g["contours"][0]]]}}}
             sources.append({"spec": sp0, "share": "m0", "layerName": "mid", "location": loc, "name": "mid"})
             specs.append(None)
+    if c.get("default_last"):
+        # the default source need not be listed first
+        order = list(range(1, len(sources))) + [0]
+        sources = [sources[i] for i in order]
+        specs = [specs[i] for i in order]
+        masters = [masters[i] for i in order]
     ds = B.build_designspace(axes, sources)
     return ds, specs, masters, axes
 
@@ -181,6 +187,9 @@ class C10(Property):
                                 for half in ([1, 0], [0, 1], [1, 1]):
                                     out.append([{"topo": topo, "kern": [list(k) for k in kern], "anchors": anchors,
                                                  "flavour": fl, "vf": vf, "axis_map": amap, "half": half}])
+                            if kern in (kerns[1], kerns[-2]) and topo in ("2m", "3m", "2m+sparse"):
+                                out.append([{"topo": topo, "kern": [list(k) for k in kern], "anchors": anchors,
+                                             "flavour": fl, "vf": vf, "axis_map": amap, "default_last": True}])
                             if fl == "cff2" and kern == kerns[0]:
                                 out.append([{"topo": topo, "kern": [list(k) for k in kern], "anchors": anchors,
                                              "flavour": fl, "vf": vf, "axis_map": amap, "opt0": True}])
